@@ -484,6 +484,14 @@ def wfApply (X : State) (ch : Changes) : Bool :=
   ch.succ2.all (statusIs X .v2 activeSt) && ch.renew2.all (statusIs X .v2 activeSt) &&
   ch.fail2.all (statusIs X .v2 activeSt)
 
+/-- `wfApply` relaxed by the one combination consensus additionally allows: a v2 contract revised by
+one transaction and resolved (proof or renewal) by another transaction of the same block.  The
+history theorems of `Props/C01.lean` assume `wfApply`; the driver's monitors also run on this
+relaxed domain (the model processes revision and resolution in the order ApplyContracts does). -/
+def wfApplyR (X : State) (ch : Changes) : Bool :=
+  let both := (ch.rev2.map (·.1)).filter fun i => ch.succ2.contains i || ch.renew2.contains i
+  wfApply X { ch with rev2 := ch.rev2.filter fun x => !both.contains x.1 }
+
 def prevRevOk (X : State) (ver : Ver) (x : Nat × Nat) : Bool :=
   match findC ver x.1 X.cs with
   | some c => c.confRev == some x.2
